@@ -45,6 +45,9 @@ func main() {
 		if what == "sorted" {
 			all = append(all, observeSorted(*plug, *out)...)
 		}
+		if what == "selection" {
+			all = append(all, observeTextIndependence(*plug, *out)...)
+		}
 		if what == "" || what == "selection" {
 			for _, sel := range selections() {
 				all = append(all, observeSelection(sel, *plug, *out))
